@@ -304,13 +304,13 @@ theorem store_lay {b : EntriesB} {items : List Entry} {bounds : List EntryBound}
   have hg2 : g2.length = gap.length - 16 - v.length - k.length := by
     have : r2.length = g2.length + g3.length := by rw [hg3]; simp
     omega
-  subst hg3; subst hg4; subst hg1
+  have hgap : gap = g1 ++ (g2 ++ (g3 ++ g4)) := by rw [hg1, hg4, hg3]; simp
   let E := encodeBounds bounds
   let back := backBytes items
   have hE : E.length = 16 * b.boundsCount := by simp [E, h.cnt]
   have hback : back.length = b.entriesLen := by simp [back, h.elen]
   have hb0 : b.buf = (E ++ (g1 ++ g2)) ++ (g3 ++ (g4 ++ back)) := by
-    rw [h.buf]; simp [E, back]
+    rw [h.buf, hgap]; simp [E, back]
   have hsub : Entries.sub b.buf.length (b.entriesLen + k.length + v.length)
       = .ok ((E ++ (g1 ++ g2)).length) := by
     rw [sub_ok (by omega)]; congr 1; simp [hE, hl1, hg2]; omega
@@ -321,7 +321,7 @@ theorem store_lay {b : EntriesB} {items : List Entry} {bounds : List EntryBound}
       ((E ++ (g1 ++ g2)).length + k.length) v
       = .ok (((E ++ (g1 ++ g2)) ++ k) ++ (v ++ back)) := by
     rw [← List.append_assoc (E ++ (g1 ++ g2)) k]
-    exact writeAt_mid _ _ _ _ _ (by simp) hl4.symm
+    exact writeAt_mid _ _ _ _ _ (by simp; omega) hl4.symm
   have hb2 : ((E ++ (g1 ++ g2)) ++ k) ++ (v ++ back) = E ++ (g1 ++ (g2 ++ (k ++ (v ++ back)))) := by
     simp
   have w3 : writeAt (E ++ (g1 ++ (g2 ++ (k ++ (v ++ back))))) (b.boundsCount * boundSize)
@@ -332,7 +332,9 @@ theorem store_lay {b : EntriesB} {items : List Entry} {bounds : List EntryBound}
   have hguard : ¬ ((b.boundsCount + 1) * boundSize
       > (E ++ (g1 ++ (g2 ++ (k ++ (v ++ back))))).length) := by
     simp [hE, hl1, boundSize]; omega
-  refine ⟨_, g2, ?_, ⟨?_, ?_, ?_, ?_⟩, ?_, rfl, rfl⟩
+  refine ⟨⟨E ++ (encodeBound (b.entriesLen + k.length + v.length) k.length v.length
+        ++ (g2 ++ (k ++ (v ++ back)))), b.entriesLen + k.length + v.length, b.boundsCount + 1⟩,
+    g2, ?_, ⟨?_, ?_, ?_, ?_⟩, ?_, rfl, rfl⟩
   · unfold store
     simp only [hsub, w1, w2, hb2, w3, hguard, if_false]
   · show E ++ (encodeBound (b.entriesLen + k.length + v.length) k.length v.length
@@ -350,7 +352,7 @@ theorem store_lay {b : EntriesB} {items : List Entry} {bounds : List EntryBound}
     · simp only [List.mem_singleton] at hb
       subst hb
       refine ⟨?_, ?_, ?_, hk, hv⟩
-      · simp [newBound]; omega
+      · simp [newBound]
       · simp [newBound]; omega
       · show itemsSize items + k.length + v.length < 2 ^ 64
         rw [← h.elen]; omega
